@@ -274,6 +274,11 @@ class TradingEnv(gymnasium.Env):
         # Instance generator of events to be sent at every interaction.
         self._transmitter._reset(fold, episode_length, self._sampling_span)
         self._events_latent, self._events_nonlatent = self._transmitter._next()
+        # No rebalancing is executed when resetting, so latent and non-latent
+        # events (which may span several past timesteps) are replayed together
+        # in chronological order.
+        self._events_nonlatent = sorted(self._events_latent + self._events_nonlatent)
+        self._events_latent = list()
         self._process_latent_events()
         self._process_nonlatent_events()
 
